@@ -51,7 +51,7 @@ def to_latlon(case, rng):
 
 def gen_case(rng, i, tier):
     latlon = rng.random() < 0.25
-    case = mcase.gen_mcase(rng, ne=(rng.random() < 0.5), width="maybe", tighten_p=0.0, sparse_p=0.2, max_obs=9)
+    case = mcase.gen_mcase(rng, families=gen.FAMILIES_ALL, ne=(rng.random() < 0.5), width="maybe", tighten_p=0.0, sparse_p=0.2, max_obs=9)
     if latlon:
         to_latlon(case, rng)
         cfg = case["cfg"]
